@@ -118,8 +118,11 @@ func planC05(tier string, seed uint64) *Plan {
 				}
 				for sh := 0; sh < shards; sh++ {
 					k++
-					g := &Group{Cfg: cfg, Jobs: []*Job{{Scen: "c05", Seed: jobSeed(seed, k), TLS: tls,
-						Params: map[string]int{"enum": 1, "corpus": c, "maxhops": mh, "shard": sh, "nshards": shards}}}}
+					params := map[string]int{"enum": 1, "corpus": c, "maxhops": mh, "shard": sh, "nshards": shards}
+					if tier == "thorough" && tls == "stub" && ci == 0 {
+						params["allstyles"] = 1 // every redirect style (status, absolute/relative/cross-host Location, header spelling)
+					}
+					g := &Group{Cfg: cfg, Jobs: []*Job{{Scen: "c05", Seed: jobSeed(seed, k), TLS: tls, Params: params}}}
 					groups = append(groups, g)
 				}
 			}
@@ -189,7 +192,7 @@ func planC03(tier string, seed uint64) *Plan {
 	}
 	n, jobs, count := 16, 2, 250
 	if tier == "thorough" {
-		n, jobs, count = 64, 4, 2500
+		n, jobs, count = 48, 4, 1500
 	}
 	p.Phases = []Phase{{Name: "histories", Groups: randomPlan("c03", seed, swarmCfgs(seed, n), jobs, count, "auto")}}
 	return p
@@ -217,7 +220,7 @@ func planC10(tier string, seed uint64) *Plan {
 	}
 	n, jobs, count := 16, 2, 400
 	if tier == "thorough" {
-		n, jobs, count = 32, 4, 6000
+		n, jobs, count = 32, 4, 4000
 	}
 	p.Phases = []Phase{{Name: "paging", Groups: randomPlan("c10", seed, swarmCfgs(seed, n), jobs, count, "stub")}}
 	return p
@@ -233,7 +236,7 @@ func planC11(tier string, seed uint64) *Plan {
 	}
 	n, jobs, count := 16, 2, 150
 	if tier == "thorough" {
-		n, jobs, count = 32, 4, 2500
+		n, jobs, count = 32, 4, 1500
 	}
 	p.Phases = []Phase{{Name: "feeds", Groups: randomPlan("c11", seed, swarmCfgs(seed, n), jobs, count, "stub")}}
 	return p
@@ -265,7 +268,7 @@ func planC02(tier string, seed uint64) *Plan {
 	}
 	n, jobs, count := 16, 2, 120
 	if tier == "thorough" {
-		n, jobs, count = 32, 4, 2000
+		n, jobs, count = 32, 4, 1200
 	}
 	p.Phases = []Phase{{Name: "provenance", Groups: randomPlan("c02", seed, swarmCfgs(seed, n), jobs, count, "auto")}}
 	return p
@@ -381,7 +384,7 @@ func planC01(tier string, seed uint64) *Plan {
 	}
 	n, jobs, count := 16, 1, 150
 	if tier == "thorough" {
-		n, jobs, count = 32, 3, 2000
+		n, jobs, count = 32, 3, 1200
 	}
 	groups := randomPlan("c01_pub", seed, uiCfgs(seed, n, nil), jobs, count, "stub")
 	groups = append(groups, randomPlan("ui_hostile", seed+5, uiCfgs(seed+5, n, nil), jobs, count/5, "stub")...)
